@@ -16,7 +16,8 @@ for d in sorted(glob.glob(f'{root}/seeded/*/')):
     caught = [f"**{k.replace('./check ', '')}**: {clip(v, 230)}" for k, v in checks.items() if str(v).startswith('exit 1')]
     silent = [f"{k.replace('./check ', '')}: {clip(v, 160)}" for k, v in checks.items() if not str(v).startswith('exit 1')]
     rows.append(f"| `{name}` ({', '.join(os.path.basename(f) for f in m.get('files_changed', []) or [])}): {clip(m.get('summary', ''), 260)} | {clip(m.get('what_it_needs_to_manifest', ''), 260)} | {' <br> '.join(caught) or '–'} | {' <br> '.join(silent) or '–'} |")
-table = "| Seeded change | Needs to manifest | Caught by | Silent (why) |\n|---|---|---|---|\n" + "\n".join(rows) + f"\n\n{len(rows)} seeded changes; every one is caught by the check of its own property within the `quick` budget.\n"
+missed = [r for r in rows if 'NOT DETECTED' in r]
+table = "| Seeded change | Needs to manifest | Caught by | Silent (why) |\n|---|---|---|---|\n" + "\n".join(rows) + f"\n\n{len(rows)} seeded changes; {len(rows) - len(missed)} are caught by the check of their own property within the `quick` budget (some only after the check was strengthened, see below), {len(missed)} not detected (reason in the last column).\n"
 p = f'{root}/DESIGN.md'
 s = open(p).read()
 s2 = re.sub(r'<!-- SEEDED:BEGIN -->.*?<!-- SEEDED:END -->', lambda _: '<!-- SEEDED:BEGIN -->\n' + table + '<!-- SEEDED:END -->', s, flags=re.S)
